@@ -1387,6 +1387,9 @@ def compare_with_model(rec, reply):
 #   ["fix",rel,cid] rel becomes a regular readable file again.  A from-scratch scan of a tree with an unreadable entry may
 #   abort; then the scan with the cache has to abort the same way (equal outcomes), otherwise the reports have to be equal.
 
+KEY_SPELLINGS = ["as written", "separators of the other platform (backslash)", "with a leading ./"]
+DAMAGE_KINDS = ["cut in the middle", "last byte cut", "empty", "not JSON", "a JSON array", "checksum of the first entry a number",
+                "first entry without measurements", "files as a list of pairs", "codebase missing"]
 UNREADABLE_KINDS = ["target of the link deleted", "target of the link renamed", "folder of the target moved", "link to itself", "mode 000"]
 
 NWORDS = ["f", "new", "delete", "class", "catch", "template", "type", "number", "string", "declare", "readonly",
@@ -1596,6 +1599,10 @@ class NamedWorld:
             self.cfg = op[1] % CFGS
         elif k == "ent":
             self.entry = op[1] % ENTRIES
+        elif k == "cv":
+            self.foreign_cache(op[1], op[2], op[3] if len(op) > 3 else 0)
+        elif k == "cdmg":
+            self.damaged_cache(op[1])
         elif k == "s":
             return self.scan()
         else:
@@ -1608,6 +1615,71 @@ class NamedWorld:
                 return f.read()
         except OSError:
             return None
+
+    def _cache_doc(self):
+        try:
+            doc = json.loads(self.cache_bytes().decode("utf-8"))
+            return doc if isinstance(doc["codebase"]["files"], dict) else None
+        except Exception:  # noqa: BLE001
+            return None
+
+    def _put_cache(self, data):
+        d, f = cache_paths(self.root)
+        if os.path.isdir(d):
+            with open(f, "wb") as fh:
+                fh.write(data)
+
+    def foreign_cache(self, v, de, keys=0):
+        """the cache on disk becomes one ANOTHER version left behind (class v of VERS: 0 key absent, 2 another release,
+        3 current + suffix, 4 a number): EVERY entry measured differently (loc and first measurement + de), checksums
+        kept; keys % len(KEY_SPELLINGS): the file keys as written / with the other platform's separator / with a leading ./"""
+        doc = self._cache_doc()
+        if doc is None or v == 1:
+            return
+        set_version(doc, v, self.cur)
+        files = {}
+        for name, e in doc["codebase"]["files"].items():
+            try:
+                e = shift(e, de)
+            except Exception:  # noqa: BLE001
+                pass
+            k = keys % len(KEY_SPELLINGS)
+            files[name.replace("/", "\\") if k == 1 else "./" + name if k == 2 else name] = e
+        doc["codebase"]["files"] = files
+        self._put_cache(json.dumps(doc, indent=2).encode())
+
+    def damaged_cache(self, kind):
+        """the cache on disk damaged without forging any measurement (DAMAGE_KINDS)"""
+        data = self.cache_bytes()
+        if data is None:
+            return
+        kind %= len(DAMAGE_KINDS)
+        doc = self._cache_doc()
+        if kind == 0:
+            out = data[:len(data) // 2]
+        elif kind == 1:
+            out = data.rstrip()[:-1]
+        elif kind == 2:
+            out = b""
+        elif kind == 3:
+            out = b"not json"
+        elif kind == 4:
+            out = b"[]"
+        elif doc is None:
+            return
+        else:
+            files = doc["codebase"]["files"]
+            first = sorted(files)[0] if files else None
+            if kind == 5 and first is not None:
+                files[first]["checksum"] = 7
+            elif kind == 6 and first is not None:
+                files[first].pop("measurements", None)
+            elif kind == 7:
+                doc["codebase"]["files"] = [[n, e] for n, e in files.items()]
+            elif kind == 8:
+                doc.pop("codebase")
+            out = json.dumps(doc, indent=2).encode()
+        self._put_cache(out)
 
     def scan(self):
         pre_cache = self.cache_bytes()
